@@ -44,3 +44,16 @@ func (attestationObject *AttestationObject) UnmarshalAuthenticatorData() (*Authe
 	authenticatorData, _, err := UnmarshalAuthenticatorData(attestationObject.AuthData)
 	return authenticatorData, err
 }
+
+// unmarshalAttestedAuthenticatorData unmarshals the authenticator data and requires that it contains attested
+// credential data.
+func (attestationObject *AttestationObject) unmarshalAttestedAuthenticatorData() (*AuthenticatorData, error) {
+	authenticatorData, err := attestationObject.UnmarshalAuthenticatorData()
+	if err != nil {
+		return nil, err
+	}
+	if authenticatorData.AttestedCredentialData == nil {
+		return nil, fmt.Errorf("%w: missing attested credential data", ErrInvalidAuthenticatorData)
+	}
+	return authenticatorData, nil
+}
